@@ -373,7 +373,12 @@ def _chain(I, args, kwargs):
 def _getattr(I, args, kwargs):
     from .symexec import PyRaise
     obj, name = args[0], args[1]
+    if isinstance(name, SV):
+        name = I.view(name)
     if not isinstance(name, str):
+        hook = getattr(obj, "getattr_sym", None)
+        if hook is not None and isinstance(name, SStr):
+            return hook(I, name)         # an abstract object that knows its attributes as a function of the name
         raise Unsupported("getattr with symbolic name")
     try:
         return I.get_attr(obj, name)
